@@ -11,13 +11,17 @@
      client  HoldLock / TryHoldLock / HoldLockMaybeAsync with a callback that runs a small program
              of operations (broadcast, getWaitCh, g++, g := v), optionally stays inside the callback
              (holding the mutex) until [Resume], optionally blocks afterwards on the last channel it took;
+             a program may contain [OPanic]: the callback performs the operations before it, (stays inside, if
+             it does,) and then PANICS.  All three entry points release the mutex by [defer], so the section
+             simply ends there: what was done is kept, the mutex is free again, the panic reaches the caller
+             (who recovers it: PRet 13) - nothing after the OPanic is executed, the caller does not block;
      Wait    Broadcast.Wait(ctx, pred) with pred from a coded family [evalp]; [slow] = the actor also
              stops at the HoldLock exit gate (after the unlock, before the select).
    A critical section is one step ([Sect]); the wake-ups of the blocking receives are separate events
    ([Wake], [CancelWake]) so that theorems cover every placement of them.  No proofs here. *)
 From Util Require Import Common.Base Common.ListLemmas.
 
-Inductive op := OBcast | OGet | OInc | OSet (v : N).
+Inductive op := OBcast | OGet | OInc | OSet (v : N) | OPanic.
 Inductive pres := PTrue | PFalse | PErr (e : N).
 
 (* predicate family of the Wait actors: what cb returns when the guarded value is g *)
@@ -30,7 +34,8 @@ Definition evalp (pk k g : N) : pres :=
   end%N.
 
 Inductive akind := KClient (ops : list op) (hold block : bool) | KWait (pk k : N) (slow : bool).
-(* PRet r: returned; r = 3 nil / done, 4 context.Canceled, 5 TryHoldLock false, 8 argument error, 10+e predicate error e *)
+(* PRet r: returned; r = 3 nil / done, 4 context.Canceled, 5 TryHoldLock false, 8 argument error, 10+e predicate error e,
+   13 the client's callback panicked (the caller recovered the panic) *)
 Inductive pc := PGate | PHold | PExit | PBlocked | PRet (r : N).
 Record actor := { ak : akind; apc : pc; acanc : bool; samp : option (nat * N) }.
 Record st := { sb : bc; sg : N; sheld : bool; sdirty : bool; snb : nat; slog : list (nat * nat); acts : list actor }.
@@ -47,11 +52,21 @@ Definition do_op (o : ost) (p : op) : ost :=
             {| ob := b'; og := og o; od := od o; on := on o; ol := ol o ++ [(c, on o)]; osamp := Some (c, og o) |}
   | OInc => {| ob := ob o; og := (og o + 1)%N; od := true; on := on o; ol := ol o; osamp := osamp o |}
   | OSet v => {| ob := ob o; og := v; od := true; on := on o; ol := ol o; osamp := osamp o |}
+  | OPanic => o        (* never executed: a program is cut at its first OPanic, see [upto_panic] *)
   end.
 Definition run_ops (o : ost) (ops : list op) : ost := fold_left do_op ops o.
 
+(* the operations a callback really performs: those before its first OPanic *)
+Definition is_panic (p : op) : bool := match p with OPanic => true | _ => false end.
+Fixpoint upto_panic (ops : list op) : list op :=
+  match ops with
+  | [] => []
+  | p :: t => if is_panic p then [] else p :: upto_panic t
+  end.
+Definition panics (ops : list op) : bool := existsb is_panic ops.
+
 (* syntactic client discipline: after the last write of a program there is a broadcast *)
-Definition op_dirty (d : bool) (p : op) : bool := match p with OBcast => false | OGet => d | _ => true end.
+Definition op_dirty (d : bool) (p : op) : bool := match p with OBcast => false | OGet | OPanic => d | _ => true end.
 Definition ops_dirty (d : bool) (ops : list op) : bool := fold_left op_dirty ops d.
 
 Inductive ev :=
@@ -62,6 +77,9 @@ Inductive ev :=
 
 Definition after_client (block : bool) (sm : option (nat * N)) : pc :=
   if block then match sm with Some _ => PBlocked | None => PRet 3 end else PRet 3.
+(* ... of a call whose callback program is ops: a panicking callback ends the call (the caller recovers: 13) *)
+Definition after_section (ops : list op) (block : bool) (sm : option (nat * N)) : pc :=
+  if panics ops then PRet 13 else after_client block sm.
 
 (* replace the record of actor a; everything else but the "mutex held" flag is unchanged *)
 Definition upd_actor (s : st) (a : nat) (x' : actor) (h : bool) : st :=
@@ -79,9 +97,9 @@ Definition do_sect (s : st) (a : nat) : st :=
     | PGate =>
       match ak x with
       | KClient ops hold block =>
-        let o := run_ops {| ob := sb s; og := sg s; od := sdirty s; on := snb s; ol := slog s; osamp := samp x |} ops in
+        let o := run_ops {| ob := sb s; og := sg s; od := sdirty s; on := snb s; ol := slog s; osamp := samp x |} (upto_panic ops) in
         {| sb := ob o; sg := og o; sheld := hold; sdirty := od o; snb := on o; slog := ol o;
-           acts := set_nth (acts s) a {| ak := ak x; apc := if hold then PHold else after_client block (osamp o);
+           acts := set_nth (acts s) a {| ak := ak x; apc := if hold then PHold else after_section ops block (osamp o);
                                          acanc := acanc x; samp := osamp o |} |}
       | KWait pk k slow =>
         match evalp pk k (sg s) with
@@ -121,8 +139,8 @@ Definition step (s : st) (e : ev) : st :=
     match nth_error (acts s) a with
     | Some x =>
       match apc x, ak x with
-      | PHold, KClient _ _ block =>
-        upd_actor s a {| ak := ak x; apc := after_client block (samp x); acanc := acanc x; samp := samp x |} false
+      | PHold, KClient ops _ block =>
+        upd_actor s a {| ak := ak x; apc := after_section ops block (samp x); acanc := acanc x; samp := samp x |} false
       | _, _ => s
       end
     | None => s
@@ -171,7 +189,7 @@ Definition step (s : st) (e : ev) : st :=
 Definition run (es : list ev) : st := fold_left step es init.
 
 (* client discipline as a boolean on the event list: every callback program that writes g broadcasts afterwards *)
-Definition ev_disc (e : ev) : bool := match e with CallClient _ ops _ _ => negb (ops_dirty false ops) | _ => true end.
+Definition ev_disc (e : ev) : bool := match e with CallClient _ ops _ _ => negb (ops_dirty false (upto_panic ops)) | _ => true end.
 Definition all_disc (es : list ev) : bool := forallb ev_disc es.
 
 Definition is_wait (x : actor) : bool := match ak x with KWait _ _ _ => true | _ => false end.
